@@ -10,14 +10,14 @@ verus! {
 //@include prelude/nd_shim.rs
 //@include prelude/nd_shim_ops.rs
 //@include prelude/tol_spec.rs
-// rule I5: `<array1>.into_iter().all(|x| x >= A::from(<literal>).unwrap())` is replaced by this helper: every element is at least the literal num/den
+// rule I18: `<array1>.into_iter().all(|x| x >= A::from(<literal>).unwrap())` is replaced by this helper: every element is at least the literal num/den
 // (exact-real comparison, like every float operation of these units)
 #[verifier::external_body]
 pub fn all_ge_lit<S: Data<Elem = A>, A: Float>(d: ArrayBase<S, Ix1>, num: i64, den: u64) -> (r: bool)
     requires den > 0
     ensures r == forall|i: int| 0 <= i < d.v().len() ==> #[trigger] d.v()[i] >= (num as real) / (den as real)
 { unimplemented!() }
-// rule I6: the closure pipelines `polys.iter().map(|poly| poly.mat.view()).collect()` / `.bias.view()` of intersection_n are these helpers: the views of the parts, in order
+// rule I19: the closure pipelines `polys.iter().map(|poly| poly.mat.view()).collect()` / `.bias.view()` of intersection_n are these helpers: the views of the parts, in order
 #[verifier::external_body]
 pub fn mat_views<'a, D: Data<Elem = A>, A: Float>(polys: &'a [AffFuncBase<PolytopeT, D>]) -> (r: Vec<ArrayView2<'a, A>>)
     ensures r@.len() == polys@.len(),
